@@ -238,6 +238,7 @@ struct ApiScope {
         actor = W->next_actor;
         W->next_actor = -1;
         Frame f;
+        f.actor = actor;
         f.had_ctx_at_entry = W->has_ctx;
         f.ctx_gen_at_entry = W->ctx_registrations;
         f.name = name;
@@ -1142,6 +1143,11 @@ void exec_op(const Op &op, bool in_cb, int cb_slot) {
         sim::tr("unstash", m, (long)op.arg(1), (long)rc);
         ex = W->c16_expect.back();
         W->c16_expect.pop_back();
+        if (rc < 0 && !ex.seen) {
+            // refused (e.g. -EAGAIN from an empty token bucket) and nothing was handed over: the events are still stashed, ahead of
+            // anything a nested callback may have stashed meanwhile
+            for (size_t i = k; i > 0; i--) s.stash.push_front(ex.want[i - 1]);
+        }
         if (on("C16")) {
             oracle_eval("C16.unstash-count");
             if (st_now != ST_RUNNING || cnt == 0) {
@@ -1207,7 +1213,7 @@ void exec_op(const Op &op, bool in_cb, int cb_slot) {
         if (rc == 0 || op.arg(1) > 0) {
             // (the new bucket is in force even when registering its refill timer was refused by the old bucket)
             s.tb_rate = (uint32_t)std::max(0L, op.arg(1)); s.tb_burst = (uint64_t)std::max(0L, op.arg(2));
-            s.tb_set_time = R->now; s.tb_set_gseq = R->gseq; s.tb_success_times.clear(); s.tb_refusal_armed = false;
+            s.tb_set_time = R->now; s.tb_set_gseq = R->gseq; s.tb_charged_max = 0; s.tb_success_times.clear(); s.tb_refusal_armed = false;
         }
         return;
     }
